@@ -218,8 +218,9 @@ func checkCache(h *History, vs []*opView) {
 	faultFree := rp.Net.UpDrop == 0 && rp.Net.UpDup == 0 && rp.Net.UpCorrupt == 0 && len(rp.Net.Partitions) == 0 && len(rp.Net.Connect) == 0
 
 	type firstRelay struct {
-		m  *refdns.Msg
-		at time.Duration
+		m    *refdns.Msg
+		at   time.Duration
+		size int // bytes on the wire
 	}
 	first := map[string]*firstRelay{}
 
@@ -257,6 +258,19 @@ func checkCache(h *History, vs []*opView) {
 	reached := func(s *serialRec, before time.Duration) bool {
 		t, ok := deliveredAt[sid(s)]
 		return ok && t <= before
+	}
+	// arrivedBy: an upper bound on when the proxy had the whole reply.  Small
+	// replies arrive one latency after they were sent; a large one may take
+	// many round trips (QUIC / HTTP/2 flow control, congestion window), so for
+	// those only "before some client was handed that answer" is certain.
+	arrivedBy := func(s *serialRec) time.Duration {
+		if s.reply.Bytes <= 8192 {
+			return s.reply.At + upMax + sigma
+		}
+		if t, ok := deliveredAt[sid(s)]; ok {
+			return t
+		}
+		return 1 << 62
 	}
 	// storedForSure: an answer that reached the proxy is in the cache, unless
 	// it is a negative one that arrived while a positive entry of the same key
@@ -308,6 +322,37 @@ func checkCache(h *History, vs []*opView) {
 			}
 		}
 		if !ok {
+			// No metadata: a record-less answer (NXDOMAIN / NODATA / REFUSED ...
+			// without any record).  If no upstream exchange for this question ran
+			// while the operation waited it came out of the cache, and its source
+			// is at best the freshest record-less answer the upstream had given
+			// before: when even that one's lifetime is over, the entry was kept
+			// too long (C08).
+			if len(m.An)+len(m.Ns)+len(stripOPT(m.Ar)) == 0 && len(v.q.Q) == 1 && v.outcome.Kind == "forward" && v.supported && m.Rcode() != 2 {
+				fetched := false
+				if u := h.Ups[v.outcome.Forward]; u != nil {
+					for _, q := range u.Queries {
+						if q.Decoded && q.At >= v.o.SentAt && q.At <= d.at && q.Name.Lower().Equal(v.lower) && q.Type == v.q.Q[0].Type && q.Class == v.q.Q[0].Class {
+							fetched = true
+						}
+					}
+				}
+				var freshest *serialRec
+				for _, s := range list {
+					if s.reply.At < d.at && s.rcode == m.Rcode() && len(s.orig.An)+len(s.orig.Ns)+len(stripOPT(s.orig.Ar)) == 0 {
+						if freshest == nil || s.reply.At > freshest.reply.At {
+							freshest = s
+						}
+					}
+				}
+				if !fetched && freshest != nil {
+					h.S.Probe("c08_recordless_hit_checked")
+					age := (d.at - clMax) - (freshest.reply.At + upMax)
+					if age > freshest.lifetime+2*time.Second+sigma {
+						h.S.Fail("C08", "served-after-expiry", "%s: a record-less answer (rcode %d) was served from cache at least %v after the freshest such answer the upstream gave; its lifetime is %v (+2s granularity)", name, m.Rcode(), age, freshest.lifetime)
+					}
+				}
+			}
 			continue
 		}
 		// find the serial record the response claims
@@ -324,7 +369,7 @@ func checkCache(h *History, vs []*opView) {
 		hit := v.o.SentAt > sr.reply.At
 		if !hit {
 			if _, seen := first[sr.up+sr.key+fmt.Sprint(sr.serial)]; !seen && len(d.raw) <= sizeLimit(v) {
-				first[sr.up+sr.key+fmt.Sprint(sr.serial)] = &firstRelay{m, d.at}
+				first[sr.up+sr.key+fmt.Sprint(sr.serial)] = &firstRelay{m, d.at, len(d.raw)}
 			}
 			continue
 		}
@@ -360,6 +405,12 @@ func checkCache(h *History, vs []*opView) {
 				}
 				return true
 			}
+			// a hit that is cut (TC) although the first relay, complete, was no
+			// larger than what this client's transport carries: the stored copy
+			// itself has lost records
+			if m.Has(refdns.BitTC) && !fr.m.Has(refdns.BitTC) && !sr.tc && fr.size+64 < sizeLimit(v) {
+				h.S.Fail("C07", "hit-differs-from-first-relay", "%s: cached response is truncated (%d bytes, limit %d) although the first relay of that answer was complete in %d bytes: %s vs %s", name, len(d.raw), sizeLimit(v), fr.size, summarize(m), summarize(fr.m))
+			}
 			// only comparable when neither was truncated for its transport
 			if !m.Has(refdns.BitTC) && !fr.m.Has(refdns.BitTC) || sr.tc {
 				if !same(m.An, fr.m.An) || !same(m.Ns, fr.m.Ns) || !sameMultiset(stripOPT(m.Ar), stripOPT(fr.m.Ar)) {
@@ -368,7 +419,13 @@ func checkCache(h *History, vs []*opView) {
 			}
 		}
 		// ---- C08: ageing
-		elapsedMin := (d.at - clMax) - (sr.reply.At + upMax + sigma)
+		// earliest moment the proxy can have built this response (a large one may
+		// spend many round trips on its way to the client)
+		servedFrom := d.at - clMax
+		if len(d.raw) > 8192 || servedFrom < v.o.SentAt+clMin {
+			servedFrom = v.o.SentAt + clMin
+		}
+		elapsedMin := servedFrom - arrivedBy(sr)
 		if elapsedMin < 0 {
 			elapsedMin = 0
 		}
@@ -470,7 +527,7 @@ func checkCache(h *History, vs []*opView) {
 				if s.tc || !s.groupKnown || s.group != myGroup || !reached(s, v.o.SentAt) || !storedForSure(list, s) {
 					continue
 				}
-				stored := s.reply.At + upMax + sigma
+				stored := arrivedBy(s)
 				if stored < v.o.SentAt+clMin && arrive < s.reply.At+upMin+s.lifetime-2100*time.Millisecond {
 					// later negative answers are set-if-absent and cannot replace it;
 					// later positive ones replace it with something at least as fresh
@@ -506,7 +563,7 @@ func checkCache(h *History, vs []*opView) {
 			// C19: after a successful positive refresh later hits see the new serial
 			var newest *serialRec
 			for _, s := range list {
-				if s.positive && !s.tc && s.groupKnown && s.group == myGroup && s.reply.At+upMax+sigma < v.o.SentAt+clMin && reached(s, 1<<62) {
+				if s.positive && !s.tc && s.groupKnown && s.group == myGroup && arrivedBy(s) < v.o.SentAt+clMin && reached(s, 1<<62) {
 					if newest == nil || s.reply.At > newest.reply.At {
 						newest = s
 					}
@@ -587,7 +644,7 @@ func checkCache(h *History, vs []*opView) {
 						if s == a || s == b || s.tc || !s.groupKnown || s.group != a.group || !reached(s, later.reply.QueryAt) || !storedForSure(list, s) {
 							continue
 						}
-						liveFrom := s.reply.At + upMax + sigma
+						liveFrom := arrivedBy(s)
 						liveTo := s.reply.At + upMin + s.lifetime - 2100*time.Millisecond
 						startProxy := later.reply.QueryAt - upMax - sigma // when the proxy decided to send it, at the earliest
 						if liveFrom < startProxy && later.reply.QueryAt < liveTo && ample {
